@@ -1,12 +1,16 @@
 (* C02 - HTML tree construction equals the WHATWG tree-construction algorithm.
    Property theorems over the tree-builder model coq/Tree/TreeModel*.v (tied to
-   html5ever by the correspondence run of lib/checks/c02.py).  Only statements
-   + `exact`; proofs live in coq/Tree/TreeInv*.v. *)
-From Coq Require Import List NArith Bool Arith.
+   html5ever by the correspondence run of lib/checks/c02.py: same sequence of
+   TreeSink calls, token by token).  Only statements + `exact`; proofs live in
+   coq/Tree/TreeInv*.v and coq/Inst/InstTreeTables.v. *)
+From Coq Require Import List NArith Bool Arith String.
 From HV Require Import Dom.DomSpec Tree.TreeTypes Tree.TreeTables Tree.TreeModelHelpers Tree.TreeModelRules
-  Tree.TreeModel Tree.TreeInvBasic.
+  Tree.TreeModel Tree.TreeHoare Tree.TreeInvBasic Tree.TreeInvDefs Tree.TreeInvPrims Tree.TreeInvRules
+  Tree.TreeInvModes Tree.TreeInvMain Tree.TreeTableTies.
+From HV Require Gen.GenTagSets Gen.GenDispatch Gen.GenQuirks Inst.InstTreeTables.
 Import ListNotations.
 
+(* ------------------------------------------------------------------ dispatch *)
 (* The dispatch of every insertion mode is total and aligned with its arm bodies:
    the model never falls off a dispatch table (Panic site 90 is unreachable). *)
 Theorem C02_dispatch_total_in_body : total_heads heads_in_body.
@@ -18,3 +22,86 @@ Theorem C02_dispatch_first_match :
     head_matches t (nth k heads []) = true /\ forall j, j < k -> head_matches t (nth j heads []) = false.
 Proof. exact first_match_sound. Qed.
 Print Assumptions C02_dispatch_first_match.
+
+(* ------------------------------------------------------------------ the model's tables are the regenerated ones *)
+Theorem C02_heads_are_generated :
+  heads_in_body = conv_arms GenDispatch.arms_InBody /\ heads_in_table = conv_arms GenDispatch.arms_InTable /\
+  heads_foreign = conv_arms GenDispatch.arms_Foreign.
+Proof.
+  exact (conj (proj1 (proj2 (proj2 (proj2 (proj2 (proj2 (proj2 dispatch_heads_are_generated)))))))
+        (conj (proj1 (proj2 (proj2 (proj2 (proj2 (proj2 (proj2 (proj2 (proj2 dispatch_heads_are_generated)))))))))
+              (proj2 (proj2 (proj2 (proj2 (proj2 (proj2 (proj2 (proj2 (proj2 (proj2 (proj2 (proj2 (proj2 (proj2 (proj2 (proj2
+                 (proj2 (proj2 (proj2 (proj2 (proj2 dispatch_heads_are_generated))))))))))))))))))))))).
+Qed.
+Print Assumptions C02_heads_are_generated.
+
+Theorem C02_special_is_generated : special_tag = conv_set GenTagSets.ts_special_tag.
+Proof. exact (proj1 tag_sets_are_generated). Qed.
+Print Assumptions C02_special_is_generated.
+
+(* ... and the regenerated tables are the WHATWG ones outside the recorded findings (c02tables' half) *)
+Theorem C02_special_is_whatwg_except :
+  forall n, InstTreeTables.emem n (HV.TreeTables.Deviations.special_extra ++ HV.TreeTables.Deviations.special_missing) = false ->
+    InstTreeTables.emem n GenTagSets.ts_special_tag = InstTreeTables.emem n HV.TreeTables.WhatwgLists.whatwg_special.
+Proof. exact InstTreeTables.special_tag_is_whatwg_except. Qed.
+Print Assumptions C02_special_is_whatwg_except.
+
+(* ------------------------------------------------------------------ invariant and Panic sites *)
+(* Every insertion mode: one step from a state satisfying the invariant, the shape assumption and the
+   tokenizer protocol reaches no Panic site and re-establishes the invariant (for a Reprocess result, after
+   the switch to the new mode), passes the token on unchanged when it is reprocessed, and a character token
+   only produces Done / SplitWhitespace / Reprocess. *)
+Theorem C02_step_ok :
+  forall s t, TInv s -> Hshape s -> tok_ok s t -> scalar_tok t -> wp (step (mode s) t) (step_post t) s.
+Proof. exact step_ok. Qed.
+Print Assumptions C02_step_ok.
+
+Theorem C02_process_token_ok :
+  forall s tk line, TInv s -> token_ok s tk -> scalar_token tk ->
+    match process_token tk line s with
+    | Ok _ s' => TInv s'
+    | Panic n => n = 99%N
+    | OutOfFuel => True
+    end.
+Proof. exact process_token_ok. Qed.
+Print Assumptions C02_process_token_ok.
+
+(* tree_no_panic_partial (see the comment at TreeInvMain.tree_no_panic_partial for the full statement wanted
+   and for what is left: the ghost assertion 99 and the fuel of the Reprocess loop) *)
+Theorem C02_tree_no_panic_partial :
+  forall o toks, protocol (init_state o) toks ->
+    match run_tokens (init_state o) toks [] with
+    | RunOk s' _ => TInv s'
+    | RunPanic n => n = 99%N
+    | RunFuel => True
+    end.
+Proof. exact tree_no_panic_document_partial. Qed.
+Print Assumptions C02_tree_no_panic_partial.
+
+(* non-vacuity: a run through Initial .. InBody, Text, the table modes and foreign content satisfies the
+   hypotheses and is RunOk; without the protocol a Panic site is reached *)
+Theorem C02_example_protocol : protocol (init_state ex_opts) ex_tokens.
+Proof. exact ex_protocol. Qed.
+Print Assumptions C02_example_protocol.
+Theorem C02_example_run :
+  match run_tokens (init_state ex_opts) ex_tokens [] with RunOk s' _ => TInv s' | _ => False end.
+Proof. exact ex_no_panic. Qed.
+Print Assumptions C02_example_run.
+
+Theorem C02_protocol_needed :
+  run_tokens (init_state ex_opts)
+    [ (TTag StartTag (nm "title") false [] false, 1%N); (TTag StartTag (nm "b") false [] false, 1%N) ] [] = RunPanic 42%N.
+Proof. exact ex_protocol_needed. Qed.
+Print Assumptions C02_protocol_needed.
+
+(* ------------------------------------------------------------------ handles (C18) *)
+Theorem C02_handles_traced :
+  forall s h, In h (trace s) <->
+    h = 0 \/ In h (open_elems s) \/ (exists t, In (FElem h t) (active_formatting s)) \/
+    head_elem s = Some h \/ form_elem s = Some h \/ context_elem s = Some h.
+Proof. exact handles_traced. Qed.
+Print Assumptions C02_handles_traced.
+
+Theorem C02_traced_handles_known : forall s, TInv s -> Forall (known s) (trace s).
+Proof. exact traced_handles_known. Qed.
+Print Assumptions C02_traced_handles_known.
